@@ -311,8 +311,29 @@ class BasicContiguousElement
             }
             else
             {
-                destruct();
-                memory_ = other.memory_;
+                bool needs_new_memory = !memory_ || memory_.size() < other.memory_.size();
+                auto new_allocator = get_allocator();
+                if constexpr (AllocatorTraits::propagate_on_container_copy_assignment::value &&
+                              !AllocatorTraits::is_always_equal::value)
+                {
+                    if (get_allocator() != other.get_allocator())
+                    {
+                        needs_new_memory = true;
+                        new_allocator = other.get_allocator();
+                    }
+                }
+                if (needs_new_memory)
+                {
+                    // allocate memory first because it might throw
+                    StorageType new_memory{other.memory_.size(), new_allocator};
+                    destruct();
+                    memory_.reset(std::move(new_memory));
+                }
+                else
+                {
+                    destruct();
+                }
+                memory_.propagate_on_container_copy_assignment(other.memory_);
                 store_and_construct_reference_inplace(other.reference_, other.reference_.size_in_bytes());
             }
         }
